@@ -218,6 +218,7 @@ def run_directed(chk, tmp):
         ("missing command", {**content([]), "jobs": [{"extension": "generic_command", "name": "x"}]}, None),
         ("empty command", content([J(command="")]), "invalid:empty_command"),
         ("whitespace command", content([J(command=" \t")]), "invalid:empty_command"),
+        ("empty command of a multi-node job", content([J(command="", use_multi_node_manager=True)]), None),
         ("lifecycle commands kept verbatim", content([J(command="a")], setup_command="  s  ", teardown_command="", node_setup_command="x\ty",
                                                      node_teardown_command=None), "valid"),
         ("name is the empty string", content([J(command="a", name=""), J(command="b", blocked_by=[""])]), "valid"),
